@@ -49,21 +49,31 @@ def run(ctx):
     gen_dir = os.path.join(ctx.work, "gen")
     open(os.path.join(ctx.work, "empty.fbs"), "w").write("table Empty { x:int; }\n")
     rc, log = flatcc_generate(ctx, flatcc, os.path.join(ctx.work, "empty.fbs"), gen_dir, opts=("-c",))
-    for f in ("a", "b"):
+    for f in ("a", "b", "da", "db"):
         rc, log = flatcc_generate(ctx, flatcc, os.path.join(VERIF, "harness/evo/%s.fbs" % f), gen_dir, opts=("-a", "--json-printer"))
         if rc != 0:
             raise BuildError("flatcc failed on harness/evo/%s.fbs: %s" % (f, log))
     rt = build_runtime_objs(ctx)
     h = build_harness(ctx, "h_verify", [os.path.join(VERIF, "harness/h_verify.c")], rt, incs=[gen_dir])
     hevo = build_harness(ctx, "evo", [os.path.join(VERIF, "harness/evo/evo.c")], rt, incs=[gen_dir])
+    hdep = build_harness(ctx, "evodep", [os.path.join(VERIF, "harness/evo/dep.c")], rt, incs=[gen_dir])
     # (1) descriptor pairs: buffers encoded for B (and mutations of them) verified under B and under A
     blocks = []
     npairs = 40 if ctx.quick() else 500
-    for _ in range(npairs):
+    dep_pair = []
+    for pi in range(npairs):
         tabsA, unsA = fbenc.random_schema(r)
         tabsB, unsB = tabsA, unsA
-        for _ in range(r.randint(1, 3)):
-            tabsB, unsB = evolve(r, tabsB, unsB)
+        if pi % 4 == 3:
+            # deprecation (C09_deprecation_old_to_new): the verifier of the schema with deprecated fields has the old call lists minus
+            # those fields. Same comparison with the roles exchanged: buffers encoded for the full schema, which the full schema's
+            # verifier accepts, must be accepted by the reduced one ("B" = full = old schema, "A" = reduced = new schema here)
+            tabsA = [[f for f in fs if r.random() < 0.6] for fs in tabsA]
+            dep_pair.append(True)
+        else:
+            dep_pair.append(False)
+            for _ in range(r.randint(1, 3)):
+                tabsB, unsB = evolve(r, tabsB, unsB)
         vlines = []
         for _ in range(6 if ctx.quick() else 12):
             ti = r.randrange(len(tabsA))
@@ -91,7 +101,8 @@ def run(ctx):
         for j in range(1, nb):
             npair_lines += 1
             if oB[j].startswith("ok") and not oA[j].startswith("ok"):
-                spec_fail.append((pos + nb + j, "buffer accepted by the new schema's verifier is rejected by the old schema's verifier", blocks[k][0], blocks[k + 1][0]))
+                spec_fail.append((pos + nb + j, "buffer accepted by the old schema's verifier is rejected by the verifier of the schema with some fields deprecated" if dep_pair[k // 2]
+                                  else "buffer accepted by the new schema's verifier is rejected by the old schema's verifier", blocks[k][0], blocks[k + 1][0]))
             if oA[j].startswith("<crash") or oB[j].startswith("<crash"):
                 spec_fail.append((pos + nb + j, "verifier/reader faulted", blocks[k][0], blocks[k + 1][0]))
         pos += 2 * nb
@@ -134,6 +145,16 @@ def run(ctx):
                 evo_fail.append("%s: A's JSON printer wrote text that is not JSON for a B buffer: %s (%s)" % (k, text.decode("latin1")[:300], ex))
         if k.startswith("A") and "extra=5 present=0 tags=0 more=0 any2=0 ex=0 colors=0" not in d.get("newB", ""):
             evo_fail.append("%s: new fields not at their defaults when reading an A buffer with B: %s" % (k, d.get("newB")))
+    # (3) deprecation (harness/evo/{da,db}.fbs, dep.c): B = A with a scalar, union, union vector, string and table field deprecated
+    rc_d, out_d, err_d = sh([hdep], timeout=600, env=ASAN_ENV)
+    dep_lines = [l for l in out_d.split("\n") if l]
+    if rc_d != 0:
+        evo_fail.append("deprecation scenario exited %d: %s" % (rc_d, err_d[-1500:]))
+    elif len(dep_lines) != 2048 + 64:
+        evo_fail.append("deprecation scenario printed %d lines instead of %d" % (len(dep_lines), 2048 + 64))
+    for l in dep_lines:
+        if not l.endswith(" ok"):
+            evo_fail.append("deprecating fields (harness/evo/da.fbs -> db.fbs), variant " + l[:400])
     if spec_fail or evo_fail:
         if spec_fail:
             i, why, sb, sa = spec_fail[0]
@@ -149,16 +170,21 @@ def run(ctx):
     ctx.cov.update({"evaluations": npair_lines + len(recs), "distinct_nontrivial": len(set(structural_hash(l) for l in lines)) + len(recs),
                     "rule": "(1) %d random descriptor schema pairs (A, B = A + 1..3 additive evolution steps: new fields of every kind with higher ids, new union members, "
                             "new tables/unions); buffers encoded for B by the independent encoder plus mutations, verified under B's and under A's call lists by the "
-                            "real runtime and by the model; every B-accepted buffer must be A-accepted and walked safely with A's reader. (2) generated code for a fixed pair "
+                            "real runtime and by the model; every B-accepted buffer must be A-accepted and walked safely with A's reader; every fourth pair is a "
+                            "deprecation pair instead (about 40 %% of the fields dropped from the call lists: buffers and mutations accepted with the full lists must be "
+                            "accepted with the reduced ones). (2) generated code for a fixed pair "
                             "harness/evo/{a,b}.fbs: %d B-built variants (new fields, new union members in single unions and union vectors, new enum values) verified/read/"
                             "JSON-printed with A's generated code and compared field by field with B's reader; 1024 A-built variants verified/read with B's code "
                             "(new fields at defaults); union vectors with runs of 1..10000 consecutive members of kinds only B knows (struct, string, table) printed "
-                            "by A's printer to a growing buffer and to a FILE under ASan." % (npairs, nvar),
+                            "by A's printer to a growing buffer and to a FILE under ASan. (3) deprecation pair harness/evo/{da,db}.fbs (a scalar, a union, a union "
+                            "vector, a string and a table field deprecated in front of fields that stay, one new field): all 2048 subsets of A's fields built with A and "
+                            "verified / read / printed with B, all 64 subsets of B's fields built with B and verified / read / printed with A." % (npairs, nvar),
+                    "deprecation_variants": len(dep_lines),
                     "unknown_member_runs": nruns,
                     "pairs": npairs, "pair_lines": npair_lines, "accepted_lines": accB, "generated_variants": len(recs),
                     "traces_validated_against_impl": len(lines), "correspondence_disagreements": len(idx), "spec_oracle_failures": len(spec_fail) + len(evo_fail)})
     ctx.samples = [{"op": lines[1][:300], "c": a[1][:300], "model": b[1][:300]}] + [recs[k] for k in list(recs)[:2]]
     ctx.notes = ["theorem covers additive evolution (fields/members/tables added); deprecating a field removes a check from the NEW verifier, so "
-                 "'new accepts => old accepts' then holds only for buffers where the deprecated field is absent (builder output): exercised by the generated-code scenario only",
+                 "'new accepts => old accepts' then holds only for buffers where the deprecated field is absent (builder output): exercised by the generated-code deprecation scenario (3) only",
                  "old-to-new direction (A-built buffers accepted by B) is checked on generated code and by the encoder runs, not proved (needs the builder model)"]
     finish(ctx, ths)
